@@ -2,7 +2,11 @@ from lib.pipeline import Prop
 PROP = Prop(
     "C12", harness="sim", quick=["--mode", "ackr,share"], thorough=["--mode", "ackr,share"], harness_kind="test", tags="verif synctests", driver="C12",
     run_timeout={"quick": 1200, "thorough": 3400},
-    models=[("pkg/kgo/consumer_share.go", ["buildAckRanges", "coalesceAppendRange", "filterStaleEntries", "shareAckState.tryAck"])],
+    models=[("pkg/kgo/consumer_share.go", ["buildAckRanges", "coalesceAppendRange", "filterStaleEntries", "shareAckState.tryAck",
+                                           "source.shareAck", "source.createShareReq", "source.closeShareSession", "shareConsumer.leave",
+                                           "shareConsumer.finalizePreviousPoll", "Client.FlushAcks", "shareAckState.appendAck"]),
+            ("pkg/kfake/78_share_fetch.go", ["Cluster.handleShareFetch"]),
+            ("pkg/kfake/share_groups.go", ["shareGroup.processShareAcks", "validateOneAckBatch", "sharePartition.validateAndProcessAcks"])],
     rule="share (protocol half): scenario = 1-3 share-group members of this tree (PollFetches or PollRecords(2|5), per record Ack accept 55% / release 10% / "
          "reject 7% / renew 10% (half of them then accept) / nothing 18% (auto-accept at the next poll), processing longer than the acquisition lock with "
          "probability 0/15/40 %, FlushAcks after a poll with probability 0/30/100 %, members joining late and leaving early, Close) x real kfake (1-2 brokers, "
@@ -40,7 +44,10 @@ PROP = Prop(
                  "protocol half: a decision counts as confirmed when the request that carried it was answered without error for the partition and the next callback for the "
                  "partition reported no error; the same offset can carry decisions of several deliveries of one member, of which a request carries one (observed: "
                  "buildAckRanges dedupes by offset); after an error callback the monitor no longer demands that the partition's unsent decisions reach the wire; "
-                 "no connection faults are injected in share scenarios"],
+                 "no connection faults are injected in share scenarios",
+                 "a share scenario that never becomes quiescent because kgo's loopShareFetch spins while an ack timer is armed and nothing can be fetched "
+                 "(goroutines created at a high rate under a loopShareFetch frame while no event is logged; <= 1 s in real time, endless under virtual time) is "
+                 "inconclusive: verdict -, counted as scen.share.inconclusive-ack-timer-spin (about 0.5 % of scenarios); any other hang is C12.scenario-hang"],
     partial="Only the pure half of C12 is covered by these ops. The range clause is proved at full strength (build_spec) since repair 5958f14; "
             "before it the ordering conjunct was false (finding ackranges-gaps-after-entries, regression kept in corpus/C12 and as an example). "
             "Protocol half: theorems state what every accepted history satisfies at each event in terms of the monitor's ledgers (stateAt); the ledgers are the "
